@@ -69,5 +69,5 @@ let () = each_line (fun l ->
         if not (same_multiset mr.rules r.rules) then drift := "nested_model" :: !drift;
         flags a g (List.map (fun (r : rule) -> r.sym) a.rules) ^ " symbols"
       | w -> failwith ("model: unknown variant " ^ w) in
-    (if !fails = [] then "OK" else "FAIL " ^ String.concat "," !fails)
+    (match !fails with [] -> "OK" | [g] -> "FAIL " ^ g | g :: r -> "FAIL " ^ g ^ " also=" ^ String.concat "," r)
     ^ (if !drift = [] then "" else " DRIFT " ^ String.concat "," !drift) ^ " " ^ v ^ res)
